@@ -22,16 +22,19 @@ class FuncReport:
             all(c[1] == "sat" for c in self.covers) and len(self.results) > 0
 
 
-def make_engine(repo, schema, contracts, loop_specs, spec_funcs, inline=None, safety=False, prefix="", overrides=None):
+def make_engine(repo, schema, contracts, loop_specs, spec_funcs, inline=None, safety=False, prefix="", overrides=None,
+                prune=False):
     cmap = {}
     for c in contracts:
         cmap[(c.cls, c.name)] = c
-    return Engine(repo, schema=dict(schema), contracts=cmap, loop_specs=dict(loop_specs), inline=inline,
-                  spec_funcs=spec_funcs, safety=safety, prefix=prefix, builtin_overrides=overrides)
+    eng = Engine(repo, schema=dict(schema), contracts=cmap, loop_specs=dict(loop_specs), inline=inline,
+                 spec_funcs=spec_funcs, safety=safety, prefix=prefix, builtin_overrides=overrides)
+    eng.prune = prune
+    return eng
 
 
 def verify(repo, con, schema, callee_contracts=(), loop_specs=None, spec_funcs=None, inline=None, safety=False,
-           timeout_ms=30000, config="", overrides=None, tactic=None, canary=True, defer=False):
+           timeout_ms=30000, config="", overrides=None, tactic=None, canary=True, defer=False, prune=False):
     rep = FuncReport(con, config)
     t0 = time.time()
     obligations, covers = [], []
@@ -39,7 +42,7 @@ def verify(repo, con, schema, callee_contracts=(), loop_specs=None, spec_funcs=N
         cases = con.cases or [None]
         for ci, case in enumerate(cases):
             eng = make_engine(repo, schema, callee_contracts, loop_specs or {}, spec_funcs or {}, inline, safety,
-                              overrides=overrides)
+                              overrides=overrides, prune=prune)
             c2 = con
             if case is not None:
                 c2 = copy.copy(con)
